@@ -1,17 +1,21 @@
 //go:build verif
 
-// verif-c27: correspondence + direct oracles for PromQL aggregation operators, over-time functions and reduction
-// (push-down) rules.  Every `eval` op is one Engine run (parser → NewEvaluator → reduction rules → querySeries →
-// functions.go → exec) of the REAL engine against an in-memory promql.Handler whose QuerySeries pre-aggregates
-// generated one-second events the way internal/api does (real tsValues.merge / tsValues.value through an accessor).
+// verif-c27: correspondence + direct oracles for PromQL aggregation operators, over-time functions, vector-vector binary
+// operators and reduction (push-down) rules.  Every `eval` op is one Engine run (parser → NewEvaluator → real
+// data_model.GetTimescale → reduction rules → querySeries → functions.go → exec) of the REAL engine against an in-memory
+// promql.Handler whose QuerySeries pre-aggregates generated one-second events the way internal/api does (real
+// tsValues.merge / tsValues.value through an accessor), per LOD of the time scale the engine built.
 //
 // Oracles on the real outputs (independent of the Lean model):
 //
-//	def-*     the engine-side operators above the storage query equal their definitions recomputed with big.Rat
-//	          from the storage answer (missing points excluded; window = the points of the selected range)
-//	reduce-*  an expression a reduction rule rewrites into a storage query equals the same expression evaluated by
-//	          the engine operators alone (selector wrapped in `(m + 0)`, which no rule matches) over the underlying
-//	          one-second series
+//	def-*          the engine-side operators above the storage queries equal their definitions recomputed with big.Rat
+//	               from the storage answers (missing points excluded; window = the points of the selected range;
+//	               binary operators: one-to-one label-set matching)
+//	def-*-numeric  the same outside float64's exact domain (large magnitude / small spread, mixed magnitudes), within a
+//	               relative tolerance the current algorithms meet with > 1000x headroom
+//	reduce-*       an expression a reduction rule rewrites into a storage query equals the same expression evaluated by
+//	               the engine operators alone (selector wrapped in `(m + 0)`, which no rule matches) over the underlying
+//	               series
 package main
 
 import (
@@ -43,13 +47,16 @@ type capSeries struct {
 	vals []float64
 }
 
+type capture struct {
+	series []capSeries
+	query  string
+}
+
 type store struct {
 	metric  *format.MetricMetaValue
 	tags    [][3]int64
 	events  []event
-	queries int
-	last    []capSeries // answer of the last QuerySeries
-	lastQ   string
+	caps    []capture // answers of the QuerySeries calls of one run, in call order
 	inexact bool
 }
 
@@ -74,8 +81,6 @@ func (s *store) QueryTagValueIDs(context.Context, promql.TagValuesQuery) ([]int6
 func (s *store) Alloc(n int) *[]float64 { v := make([]float64, n); return &v }
 func (s *store) Free(*[]float64)        {}
 func (s *store) Tracef(string, ...any)  {}
-
-func whatName(w promql.DigestWhat) string { return w.String() }
 
 // exact value of `what` for the events of one (group, bucket), by definition
 func exactWhat(w promql.DigestWhat, evs []int64, qstep, lstep int64) *big.Rat {
@@ -124,20 +129,30 @@ func exactWhat(w promql.DigestWhat, evs []int64, qstep, lstep int64) *big.Rat {
 	return nil
 }
 
+// step of the LOD every point of the time scale belongs to (what requestHandler.QuerySeries iterates: Timescale.GetLODs)
+func widthsOf(ts data_model.Timescale) []int64 {
+	w := make([]int64, 0, len(ts.Time))
+	for _, lod := range ts.LODs {
+		for i := 0; i < lod.Len && len(w) < len(ts.Time); i++ {
+			w = append(w, lod.Step)
+		}
+	}
+	for len(w) < len(ts.Time) {
+		w = append(w, ts.LODs[len(ts.LODs)-1].Step)
+	}
+	return w
+}
+
 func (s *store) QuerySeries(_ context.Context, qry *promql.SeriesQuery) (promql.Series, func(), error) {
 	ts := qry.Timescale
-	lodStep := ts.LODs[len(ts.LODs)-1].Step
-	qstep := qry.Range
-	if qstep == 0 {
-		qstep = ts.Step
+	widths := widthsOf(ts)
+	// the step requestHandler.QuerySeries hands to copyRowValuesAt: qry.Range, else Timescale.Step (0 → row step there)
+	hstep := qry.Range
+	if hstep == 0 {
+		hstep = ts.Step
 	}
-	if qstep == 0 {
-		qstep = lodStep
-	}
-	s.queries++
 	what := qry.Whats[0].Digest
-	s.lastQ = fmt.Sprintf("what=%s by=%v range=%d", whatName(what), qry.GroupBy, qry.Range)
-	s.last = nil
+	cp := capture{query: fmt.Sprintf("what=%s by=%v range=%d", what.String(), groupByShort(qry.GroupBy), qry.Range)}
 	res := promql.Series{Meta: promql.SeriesMeta{Metric: qry.Metric}}
 	by := map[int]bool{}
 	for _, x := range qry.GroupBy {
@@ -166,6 +181,7 @@ func (s *store) QuerySeries(_ context.Context, qry *promql.SeriesQuery) (promql.
 		vals := make([]float64, len(ts.Time))
 		any := false
 		for x, t := range ts.Time {
+			lodStep := widths[x]
 			var rs []api.VerifC27Row
 			var evs []int64
 			for _, e := range s.events {
@@ -180,7 +196,11 @@ func (s *store) QuerySeries(_ context.Context, qry *promql.SeriesQuery) (promql.
 				continue
 			}
 			any = true
-			vals[x] = api.VerifC27MergeValue(rs, what, lodStepOr(ts.Step, qry.Range, lodStep), lodStep)
+			vals[x] = api.VerifC27MergeValue(rs, what, hstep, lodStep)
+			qstep := hstep
+			if qstep == 0 {
+				qstep = lodStep
+			}
 			if ex := exactWhat(what, evs, qstep, lodStep); ex == nil || math.IsNaN(vals[x]) || math.IsInf(vals[x], 0) ||
 				new(big.Rat).SetFloat64(vals[x]).Cmp(ex) != 0 {
 				s.inexact = true
@@ -205,527 +225,40 @@ func (s *store) QuerySeries(_ context.Context, qry *promql.SeriesQuery) (promql.
 				ctags = append(ctags, [2]int64{int64(j + 1), k[j]})
 			}
 		}
-		s.last = append(s.last, capSeries{tags: ctags, vals: append([]float64(nil), vals...)})
+		cp.series = append(cp.series, capSeries{tags: ctags, vals: append([]float64(nil), vals...)})
 	}
+	s.caps = append(s.caps, cp)
 	res.Meta.Total = len(res.Data)
 	return res, func() {}, nil
 }
 
-// the step requestHandler.QuerySeries hands to copyRowValuesAt: qry.Range, else Timescale.Step (0 → row step there)
-func lodStepOr(tsStep, rng, lod int64) int64 {
-	if rng != 0 {
-		return rng
+func groupByShort(g []int) string {
+	if len(g) > 8 {
+		return "all"
 	}
-	return tsStep
-}
-
-// ---------------------------------------------------------------- expressions
-
-type node struct {
-	kind    string // agg q topk botk ot qot paren brk
-	op      string
-	qn, qd  int64
-	k       int
-	without bool
-	labels  []int
-	rng     int64
-	sub     bool
-}
-
-var labelName = []string{"z", "a", "b", "c"}
-
-func (n node) labelsTok() string {
-	if len(n.labels) == 0 {
-		return "-"
-	}
-	ss := make([]string, len(n.labels))
-	for i, l := range n.labels {
-		ss[i] = fmt.Sprint(l)
-	}
-	return strings.Join(ss, ".")
-}
-
-func (n node) woTok() string {
-	if n.without {
-		return "wo"
-	}
-	return "by"
-}
-
-func subTok(b bool) string {
-	if b {
-		return "s"
-	}
-	return "m"
-}
-
-func (n node) token() string {
-	switch n.kind {
-	case "agg":
-		return fmt.Sprintf("agg:%s:%s:%s", n.op, n.woTok(), n.labelsTok())
-	case "q":
-		return fmt.Sprintf("q:%s:%s:%s", big.NewRat(n.qn, n.qd).RatString(), n.woTok(), n.labelsTok())
-	case "topk", "botk":
-		return fmt.Sprintf("%s:%d:%s:%s", n.kind, n.k, n.woTok(), n.labelsTok())
-	case "ot":
-		return fmt.Sprintf("ot:%s:%d:%s", n.op, n.rng, subTok(n.sub))
-	case "qot":
-		return fmt.Sprintf("qot:%s:%d:%s", big.NewRat(n.qn, n.qd).RatString(), n.rng, subTok(n.sub))
-	}
-	return n.kind
-}
-
-func (n node) grouping() string {
-	names := make([]string, len(n.labels))
-	for i, l := range n.labels {
-		names[i] = labelName[l]
-	}
-	kw := "by"
-	if n.without {
-		kw = "without"
-	}
-	return fmt.Sprintf("%s (%s)", kw, strings.Join(names, ","))
-}
-
-func qstr(n node) string {
-	return fmt.Sprint(float64(n.qn) / float64(n.qd)) // dyadic: prints exactly
-}
-
-func (n node) wrap(inner string, innerIsSelector bool) string {
-	rangeOf := func() string {
-		if n.sub {
-			return fmt.Sprintf("(%s)[%ds:]", inner, n.rng)
-		}
-		return fmt.Sprintf("%s[%ds]", inner, n.rng)
-	}
-	switch n.kind {
-	case "agg":
-		return fmt.Sprintf("%s %s (%s)", n.op, n.grouping(), inner)
-	case "q":
-		return fmt.Sprintf("quantile %s (%s, %s)", n.grouping(), qstr(n), inner)
-	case "topk":
-		return fmt.Sprintf("topk %s (%d, %s)", n.grouping(), n.k, inner)
-	case "botk":
-		return fmt.Sprintf("bottomk %s (%d, %s)", n.grouping(), n.k, inner)
-	case "ot":
-		return fmt.Sprintf("%s_over_time(%s)", n.op, rangeOf())
-	case "qot":
-		return fmt.Sprintf("quantile_over_time(%s, %s)", qstr(n), rangeOf())
-	case "paren":
-		return "(" + inner + ")"
-	case "brk":
-		return "(" + inner + " + 0)"
-	}
-	panic("kind")
-}
-
-func selString(what string) string {
-	if what == "" {
-		return "m"
-	}
-	return fmt.Sprintf("m{__what__=%q}", what)
-}
-
-// chain is root first; returns the PromQL text of every prefix (bottom-up): pre[i] = text of nodes bottom..i
-func chainStrings(what string, chain []node) (string, []string) {
-	cur := selString(what)
-	var pre []string
-	for i := len(chain) - 1; i >= 0; i-- {
-		cur = chain[i].wrap(cur, i == len(chain)-1)
-		pre = append(pre, cur)
-	}
-	return cur, pre
-}
-
-func chainTokens(what string, chain []node) string {
-	w := what
-	if w == "" {
-		w = "-"
-	}
-	toks := []string{"what=" + w}
-	for _, n := range chain {
-		toks = append(toks, n.token())
-	}
-	return strings.Join(toks, " ")
-}
-
-// ---------------------------------------------------------------- reference evaluation (definitions, big.Rat)
-
-type rser struct {
-	tags [][2]int64
-	vals []*big.Rat // nil = missing
-}
-
-type flags struct {
-	inexact bool
-	tie     bool
-}
-
-func exactRat(r *big.Rat) bool {
-	_, ex := r.Float64()
-	return ex
-}
-
-func (f *flags) chk(r *big.Rat) *big.Rat {
-	if !exactRat(r) {
-		f.inexact = true
-	}
-	return r
-}
-
-func tagKey(t [][2]int64) string {
-	ss := make([]string, len(t))
-	for i, p := range t {
-		ss[i] = fmt.Sprintf("%d=%d", p[0], p[1])
-	}
-	return "{" + strings.Join(ss, ",") + "}"
-}
-
-func groupKey(n node, tags [][2]int64) [][2]int64 {
-	var res [][2]int64
-	for _, t := range tags {
-		listed := false
-		for _, l := range n.labels {
-			if int64(l) == t[0] {
-				listed = true
-			}
-		}
-		if listed != n.without {
-			res = append(res, t)
-		}
-	}
-	return res
-}
-
-func sortedPresent(col []*big.Rat) []*big.Rat {
-	var p []*big.Rat
-	for _, v := range col {
-		if v != nil {
-			p = append(p, v)
-		}
-	}
-	sort.Slice(p, func(i, j int) bool { return p[i].Cmp(p[j]) < 0 })
-	return p
-}
-
-func present(col []*big.Rat) []*big.Rat {
-	var p []*big.Rat
-	for _, v := range col {
-		if v != nil {
-			p = append(p, v)
-		}
-	}
-	return p
-}
-
-func ratInt(n int) *big.Rat { return big.NewRat(int64(n), 1) }
-
-func sqrtRat(r *big.Rat, f *flags) *big.Rat {
-	if r.Sign() < 0 {
-		f.inexact = true
-		return new(big.Rat)
-	}
-	n := new(big.Int).Sqrt(r.Num())
-	d := new(big.Int).Sqrt(r.Denom())
-	if new(big.Int).Mul(n, n).Cmp(r.Num()) != 0 || new(big.Int).Mul(d, d).Cmp(r.Denom()) != 0 {
-		f.inexact = true
-	}
-	return new(big.Rat).SetFrac(n, d)
-}
-
-// population variance with the exactness of every float step the code performs (mean, d*d/cnt, running sum)
-func variance(p []*big.Rat, f *flags) *big.Rat {
-	n := ratInt(len(p))
-	sum := new(big.Rat)
-	for _, v := range p {
-		sum = f.chk(new(big.Rat).Add(sum, v))
-	}
-	mean := f.chk(new(big.Rat).Quo(sum, n))
-	res := new(big.Rat)
-	for _, v := range p {
-		d := f.chk(new(big.Rat).Sub(v, mean))
-		dd := f.chk(new(big.Rat).Mul(d, d))
-		res = f.chk(new(big.Rat).Add(res, f.chk(new(big.Rat).Quo(dd, n))))
-	}
-	return res
-}
-
-// quantile of the present points: linear interpolation between the closest ranks of the sorted values
-func quantileDef(qn, qd int64, sorted []*big.Rat, f *flags) *big.Rat {
-	if len(sorted) == 0 {
-		return nil
-	}
-	q := big.NewRat(qn, qd)
-	ix := f.chk(new(big.Rat).Mul(q, ratInt(len(sorted)-1)))
-	i1 := int(new(big.Int).Quo(ix.Num(), ix.Denom()).Int64())
-	i2 := i1 + 1
-	if i2 > len(sorted)-1 {
-		i2 = len(sorted) - 1
-	}
-	frac := new(big.Rat).Sub(ix, ratInt(i1)) // position between the two ranks
-	a := f.chk(new(big.Rat).Mul(sorted[i1], f.chk(new(big.Rat).Sub(ratInt(i2), ix))))
-	w2 := f.chk(new(big.Rat).Sub(ratInt(1), new(big.Rat).Sub(ratInt(i2), ix)))
-	b := f.chk(new(big.Rat).Mul(sorted[i2], w2))
-	_ = frac
-	return f.chk(new(big.Rat).Add(a, b))
-}
-
-func aggDef(n node, col []*big.Rat, f *flags) *big.Rat {
-	p := present(col)
-	switch n.kind {
-	case "q":
-		return quantileDef(n.qn, n.qd, sortedPresent(col), f)
-	}
-	switch n.op {
-	case "count":
-		return ratInt(len(p))
-	}
-	if len(p) == 0 {
-		return nil
-	}
-	switch n.op {
-	case "sum", "avg":
-		s := new(big.Rat)
-		for _, v := range p {
-			s = f.chk(new(big.Rat).Add(s, v))
-		}
-		if n.op == "avg" {
-			return f.chk(s.Quo(s, ratInt(len(p))))
-		}
-		return s
-	case "min":
-		return sortedPresent(col)[0]
-	case "max":
-		return sortedPresent(col)[len(p)-1]
-	case "group":
-		return ratInt(1)
-	case "stdvar":
-		return variance(p, f)
-	case "stddev":
-		return sqrtRat(variance(p, f), f)
-	}
-	panic("agg op " + n.op)
-}
-
-type tsInfo struct {
-	times            []int64
-	startX, vs, ve   int
-	lod, step        int64
-}
-
-// the window of index r for range w: the engine's convention is that point i stands for [t[i], t[i+1]) and index 0 is a
-// guard point, so a window must start at an index >= 1.  strict: the widest window not wider than w; otherwise the
-// narrowest window at least w wide.  ok=false: no such window inside the fetched time scale (result missing).
-func windowDef(ts tsInfo, r int, w int64, strict bool) (l int, empty bool, ok bool) {
-	s := ts.lod
-	if r+1 < len(ts.times) {
-		s = ts.times[r+1] - ts.times[r]
-	}
-	width := func(l int) int64 { return ts.times[r] - ts.times[l] + s }
-	if strict {
-		if w < width(r) {
-			return r, true, r >= 1
-		}
-		l = r
-		for l-1 >= 0 && width(l-1) <= w {
-			l--
-		}
-		if width(l) == w {
-			return l, false, l >= 1
-		}
-		// narrower than w: the cursor accepts it only when one more point would exceed w, i.e. l-1 exists
-		return l, false, l >= 1
-	}
-	l = r
-	for l >= 0 && width(l) < w {
-		l--
-	}
-	return l, false, l >= 1
-}
-
-func otDef(n node, win []*big.Rat, f *flags) *big.Rat {
-	p := present(win)
-	if len(p) == 0 {
-		if n.kind == "ot" && n.op == "count" {
-			return ratInt(0)
-		}
-		return nil
-	}
-	if n.kind == "qot" {
-		return quantileDef(n.qn, n.qd, sortedPresent(win), f)
-	}
-	switch n.op {
-	case "count":
-		return ratInt(len(p))
-	case "last":
-		return p[len(p)-1]
-	case "stdvar":
-		return variance(p, f)
-	case "stddev":
-		return sqrtRat(variance(p, f), f)
-	}
-	return aggDef(node{kind: "agg", op: n.op}, win, f)
-}
-
-func hasPresentInView(ts tsInfo, s rser) bool {
-	for i := ts.vs; i < ts.ve && i < len(s.vals); i++ {
-		if s.vals[i] != nil {
-			return true
-		}
-	}
-	return false
-}
-
-func weightsDef(ts tsInfo, g []rser, f *flags) []*big.Rat {
-	allND := true
-	for _, s := range g {
-		var prev *big.Rat
-		for i := ts.vs; i < ts.ve; i++ {
-			if v := s.vals[i]; v != nil {
-				if prev != nil && v.Cmp(prev) < 0 {
-					allND = false
-				}
-				prev = v
-			}
-		}
-	}
-	w := make([]*big.Rat, len(g))
-	for i, s := range g {
-		if allND {
-			w[i] = new(big.Rat)
-			for j := ts.ve; j > 0; j-- {
-				if s.vals[j-1] != nil {
-					w[i] = s.vals[j-1]
-					break
-				}
-			}
-		} else {
-			acc := new(big.Rat)
-			for j := ts.vs; j < ts.ve; j++ {
-				if v := s.vals[j]; v != nil {
-					t := f.chk(new(big.Rat).Mul(v, v))
-					t = f.chk(t.Mul(t, big.NewRat(ts.lod, 1)))
-					acc = f.chk(new(big.Rat).Add(acc, t))
-				}
-			}
-			w[i] = acc
-		}
-	}
-	return w
-}
-
-func refApply(n node, ts tsInfo, in []rser, f *flags) []rser {
-	switch n.kind {
-	case "paren", "brk":
-		return in
-	case "agg", "q":
-		var order []string
-		groups := map[string][]rser{}
-		keys := map[string][][2]int64{}
-		for _, s := range in {
-			k := groupKey(n, s.tags)
-			ks := tagKey(k)
-			if _, ok := groups[ks]; !ok {
-				order = append(order, ks)
-				keys[ks] = k
-			}
-			groups[ks] = append(groups[ks], s)
-		}
-		var out []rser
-		for _, ks := range order {
-			g := groups[ks]
-			vals := make([]*big.Rat, len(ts.times))
-			for i := range ts.times {
-				col := make([]*big.Rat, len(g))
-				for j, s := range g {
-					col[j] = s.vals[i]
-				}
-				vals[i] = aggDef(n, col, f)
-			}
-			out = append(out, rser{tags: keys[ks], vals: vals})
-		}
-		return out
-	case "topk", "botk":
-		if n.k <= 0 {
-			return nil
-		}
-		var kept []rser
-		for _, s := range in {
-			if ts.vs == ts.ve || hasPresentInView(ts, s) {
-				kept = append(kept, s)
-			}
-		}
-		var order []string
-		groups := map[string][]rser{}
-		for _, s := range kept {
-			ks := tagKey(groupKey(n, s.tags))
-			if _, ok := groups[ks]; !ok {
-				order = append(order, ks)
-			}
-			groups[ks] = append(groups[ks], s)
-		}
-		var out []rser
-		for _, ks := range order {
-			g := groups[ks]
-			w := weightsDef(ts, g, f)
-			idx := make([]int, len(g))
-			for i := range idx {
-				idx[i] = i
-			}
-			sort.SliceStable(idx, func(a, b int) bool {
-				if n.kind == "topk" {
-					return w[idx[a]].Cmp(w[idx[b]]) > 0
-				}
-				return w[idx[a]].Cmp(w[idx[b]]) < 0
-			})
-			k := n.k
-			if k > len(g) {
-				k = len(g)
-			}
-			if k < len(g) && w[idx[k-1]].Cmp(w[idx[k]]) == 0 {
-				f.tie = true // which of the equally heavy series survives is the engine's free choice
-			}
-			for _, i := range idx[:k] {
-				out = append(out, g[i])
-			}
-		}
-		return out
-	case "ot", "qot":
-		strict := n.kind == "qot" || n.op == "sum" || n.op == "count" || n.op == "stddev" || n.op == "stdvar"
-		var out []rser
-		for _, s := range in {
-			vals := make([]*big.Rat, len(ts.times))
-			for r := range ts.times {
-				l, empty, ok := windowDef(ts, r, n.rng, strict)
-				if !ok {
-					continue
-				}
-				if empty {
-					vals[r] = otDef(n, nil, f)
-					continue
-				}
-				vals[r] = otDef(n, s.vals[l:r+1], f)
-			}
-			out = append(out, rser{tags: s.tags, vals: vals})
-		}
-		return out
-	}
-	panic("kind " + n.kind)
+	return fmt.Sprint(g)
 }
 
 // ---------------------------------------------------------------- running the real engine
 
 type runResult struct {
-	err    error
-	ts     tsInfo
-	lines  []string            // canonical observation lines
-	series map[string][]float64 // tags → trimmed values
-	times  []int64             // trimmed times
-	capt   []capSeries
-	query  string
-	nq     int
-	inex   bool
-	replaced string
+	err      error
+	ts       tsInfo
+	lines    []string             // canonical observation lines
+	series   map[string][]float64 // tags → trimmed values
+	times    []int64              // trimmed times
+	caps     []capture
+	inex     bool
+	replaced []string
+	sparse   bool // at most one event per (series, point of the time scale)
+}
+
+func (r runResult) queries() string {
+	qs := make([]string, len(r.caps))
+	for i, c := range r.caps {
+		qs[i] = c.query
+	}
+	return strings.Join(qs, "; ")
 }
 
 func fmtFloat(v float64) string {
@@ -768,22 +301,25 @@ func run(st *store, expr string, start, end, step, now int64) (res runResult) {
 			res.err = fmt.Errorf("panic: %v", p)
 		}
 	}()
-	st.queries, st.last, st.lastQ, st.inexact = 0, nil, "", false
+	st.caps, st.inexact = nil, false
 	ng := promql.NewEngine(nil, 0)
 	v, cancel, t, replaced, err := promql.VerifC27Exec(ng, context.Background(), st, promql.Query{Start: start, End: end, Step: step, Expr: expr,
 		Options: promql.Options{TimeNow: now}})
+	if len(t.LODs) != 0 {
+		res.ts = tsInfo{times: append([]int64(nil), t.Time...), widths: widthsOf(t), startX: t.StartX, vs: t.ViewStartX, ve: t.ViewEndX,
+			lod: t.LODs[len(t.LODs)-1].Step, step: t.Step}
+	}
 	if err != nil {
 		res.err = err
 		return res
 	}
 	defer cancel()
 	tsr, ok := v.(*promql.TimeSeries)
-	if !ok || len(t.LODs) != 1 {
+	if !ok || len(t.LODs) == 0 {
 		res.err = fmt.Errorf("unexpected result %T lods=%d", v, len(t.LODs))
 		return res
 	}
 	res.replaced = replaced
-	res.ts = tsInfo{times: append([]int64(nil), t.Time...), startX: t.StartX, vs: t.ViewStartX, ve: t.ViewEndX, lod: t.LODs[0].Step, step: t.Step}
 	res.times = append([]int64(nil), tsr.Time...)
 	res.series = map[string][]float64{}
 	for i := range tsr.Series.Data {
@@ -797,21 +333,266 @@ func run(st *store, expr string, start, end, step, now int64) (res runResult) {
 		res.series[k] = append([]float64(nil), *d.Values...)
 	}
 	sort.Strings(res.lines)
-	res.capt, res.query, res.nq, res.inex = st.last, st.lastQ, st.queries, st.inexact
+	res.caps, res.inex = st.caps, st.inexact
+	res.sparse = true
+	cnt := map[[2]int]int{}
+	for _, e := range st.events {
+		for x, tm := range res.ts.times {
+			if tm <= e.sec && e.sec < tm+res.ts.widths[x] {
+				cnt[[2]int{e.series, x}]++
+				if cnt[[2]int{e.series, x}] > 1 {
+					res.sparse = false
+				}
+			}
+		}
+	}
 	return res
 }
 
-// index (bottom-up) of the chain node the evaluator replaced by the selector, -1 if none, -2 if it cannot be located
-func reducedUpto(replaced string, pre []string) int {
-	if replaced == "" {
+// index (bottom-up) of the chain node the evaluator replaced by the selector, -1 if none
+func reducedUpto(replaced []string, pre []string) int {
+	if len(replaced) == 0 {
 		return -1
 	}
+	set := map[string]bool{}
+	for _, r := range replaced {
+		set[r] = true
+	}
+	upto := -1
 	for i, p := range pre {
-		if a, err := parser.ParseExpr(p); err == nil && a.String() == replaced {
-			return i
+		if a, err := parser.ParseExpr(p); err == nil && set[a.String()] {
+			upto = i
 		}
 	}
-	return -2
+	return upto
+}
+
+// ---------------------------------------------------------------- reference evaluation of a tree from the captured storage answers
+
+func capToRef(c []capSeries) []rser {
+	out := make([]rser, len(c))
+	for i, s := range c {
+		vals := make([]*big.Rat, len(s.vals))
+		for j, v := range s.vals {
+			if !math.IsNaN(v) {
+				vals[j] = new(big.Rat).SetFloat64(v)
+			}
+		}
+		out[i] = rser{tags: s.tags, vals: vals}
+	}
+	return out
+}
+
+type refState struct {
+	real   runResult
+	next   int // next capture
+	fl     flags
+	err    bool
+	broken bool // captures do not line up with the selectors (should not happen)
+	anyRed bool
+}
+
+func (rs *refState) eval(e *expr, pre map[*expr][]string) []rser {
+	return rs.evalFrom(e, 0, pre)
+}
+
+func (rs *refState) evalFrom(e *expr, i int, pre map[*expr][]string) []rser {
+	if rs.err || rs.broken {
+		return nil
+	}
+	if i < len(e.chain) {
+		n := e.chain[i]
+		if (n.kind == "topk" || n.kind == "botk") && n.k <= 0 {
+			return nil // funcTopK returns before evaluating its operand
+		}
+		if e.base == nil {
+			// the nodes from the bottom up to `upto` are replaced by the storage query
+			upto := reducedUpto(rs.real.replaced, pre[e])
+			if upto >= 0 {
+				rs.anyRed = true
+			}
+			if len(e.chain)-1-i <= upto {
+				return rs.capture()
+			}
+		}
+		in := rs.evalFrom(e, i+1, pre)
+		if rs.err || rs.broken {
+			return nil
+		}
+		return refApply(n, rs.real.ts, in, &rs.fl)
+	}
+	if e.base == nil {
+		return rs.capture()
+	}
+	l := rs.eval(e.base.l, pre)
+	r := rs.eval(e.base.r, pre)
+	if rs.err || rs.broken {
+		return nil
+	}
+	out, err := binDef(e.base, l, r, &rs.fl)
+	if err {
+		rs.err = true
+	}
+	return out
+}
+
+func (rs *refState) capture() []rser {
+	if rs.next >= len(rs.real.caps) {
+		rs.broken = true
+		return nil
+	}
+	c := rs.real.caps[rs.next]
+	rs.next++
+	return capToRef(c.series)
+}
+
+func refSeries(e *expr, leaves []leaf, real runResult) (out []rser, rs *refState) {
+	pre := map[*expr][]string{}
+	for _, l := range leaves {
+		pre[l.e] = l.pre
+	}
+	rs = &refState{real: real, fl: flags{inexact: real.inex}}
+	out = rs.eval(e, pre)
+	if rs.next != len(real.caps) {
+		rs.broken = true
+	}
+	var kept []rser
+	for _, s := range out {
+		if real.ts.vs != real.ts.ve && !hasPresentInView(real.ts, s) {
+			continue
+		}
+		kept = append(kept, rser{tags: s.tags, vals: s.vals[real.ts.startX:]})
+	}
+	return kept, rs
+}
+
+func refLines(ss []rser) []string {
+	var lines []string
+	for _, s := range ss {
+		vs := make([]string, 0, len(s.vals))
+		for _, v := range s.vals {
+			vs = append(vs, fmtRat(v))
+		}
+		lines = append(lines, tagKey(s.tags)+" "+strings.Join(vs, " "))
+	}
+	sort.Strings(lines)
+	return lines
+}
+
+func firstDiff(a, b []string) string {
+	for i := 0; i < len(a) || i < len(b); i++ {
+		var x, y string
+		if i < len(a) {
+			x = a[i]
+		}
+		if i < len(b) {
+			y = b[i]
+		}
+		if x != y {
+			return fmt.Sprintf("engine=[%s] definition=[%s]", x, y)
+		}
+	}
+	return ""
+}
+
+// numeric comparison: relative tolerance plus a floor scaled by the magnitude of the inputs
+func numericDiff(real runResult, ref []rser, tol tolerance) (string, float64) {
+	worst := 0.0
+	refBy := map[string]rser{}
+	for _, s := range ref {
+		refBy[tagKey(s.tags)] = s
+	}
+	if len(refBy) != len(real.series) {
+		return fmt.Sprintf("series engine=%d definition=%d", len(real.series), len(refBy)), math.Inf(1)
+	}
+	keys := make([]string, 0, len(real.series))
+	for k := range real.series {
+		keys = append(keys, k)
+	}
+	sort.Strings(keys)
+	for _, k := range keys {
+		a := real.series[k]
+		b, ok := refBy[k]
+		if !ok {
+			return "series " + k + " not in the definition's result", math.Inf(1)
+		}
+		for i, x := range a {
+			if (b.vals[i] == nil) != math.IsNaN(x) {
+				return fmt.Sprintf("series=%s i=%d engine=%v definition=%s", k, i, x, fmtRat(b.vals[i])), math.Inf(1)
+			}
+			if b.vals[i] == nil {
+				continue
+			}
+			y, _ := b.vals[i].Float64()
+			errAbs := math.Abs(x - y)
+			allowed := tol.rel*math.Abs(y) + tol.floor
+			if r := errAbs / allowed; r > worst {
+				worst = r
+			}
+			if errAbs > allowed {
+				return fmt.Sprintf("series=%s i=%d engine=%.17g definition=%.17g error=%.3g allowed=%.3g", k, i, x, y, errAbs, allowed), errAbs / allowed
+			}
+		}
+	}
+	return "", worst
+}
+
+type tolerance struct{ rel, floor float64 }
+
+func sigOf(n node) string {
+	switch n.kind {
+	case "agg":
+		return "def-agg-" + n.op
+	case "q":
+		return "def-agg-quantile"
+	case "topk", "botk":
+		return "def-" + n.kind
+	case "ot":
+		return "def-" + n.op + "-over-time"
+	case "qot":
+		return "def-quantile-over-time"
+	}
+	return "def-" + n.kind
+}
+
+// the operator to blame for a difference: sub-expressions are run bottom-up on the real engine, the first one whose result
+// differs from its definition names the signature (falls back to the root)
+func blame(sc scenario, e *expr, differs func(*expr) bool) string {
+	var found string
+	var visit func(x *expr) bool
+	visit = func(x *expr) bool {
+		if x.base != nil {
+			if visit(x.base.l) || visit(x.base.r) {
+				return true
+			}
+			if len(x.chain) > 0 {
+				if differs(&expr{base: x.base}) {
+					found = "def-binary-" + x.base.op
+					return true
+				}
+			}
+		}
+		for i := len(x.chain) - 1; i >= 0; i-- {
+			if i == 0 && x == e {
+				break // the whole expression: known to differ
+			}
+			if differs(&expr{chain: x.chain[i:], what: x.what, base: x.base}) {
+				found = sigOf(x.chain[i])
+				return true
+			}
+		}
+		return false
+	}
+	if visit(e) {
+		return found
+	}
+	if len(e.chain) > 0 {
+		return sigOf(e.chain[0])
+	}
+	if e.base != nil {
+		return "def-binary-" + e.base.op
+	}
+	return "def-selector"
 }
 
 // ---------------------------------------------------------------- generator
@@ -838,8 +619,9 @@ func genLabels(r *verifx.Rng) []int {
 var aggOps = []string{"sum", "min", "max", "avg", "count", "group", "stddev", "stdvar"}
 var otOps = []string{"avg", "min", "max", "sum", "count", "stdvar", "stddev", "last"}
 
+// ranges of 1-3 grid points, below one point, and not a multiple of the grid step
 func genRange(r *verifx.Rng, lod int64) int64 {
-	switch r.Pick(5, 2, 1, 1, 1) {
+	switch r.Pick(5, 3, 1, 1, 1) {
 	case 0:
 		return lod
 	case 1:
@@ -861,7 +643,7 @@ func genQ(r *verifx.Rng) (int64, int64) {
 	return q[0], q[1]
 }
 
-func genNode(r *verifx.Rng, lod int64, bottom bool) node {
+func genNode(r *verifx.Rng, lod int64, matrixOK bool) node {
 	switch r.Pick(8, 2, 2, 6, 1) {
 	case 0:
 		return node{kind: "agg", op: aggOps[r.Intn(len(aggOps))], without: r.Chance(1, 3), labels: genLabels(r)}
@@ -875,19 +657,18 @@ func genNode(r *verifx.Rng, lod int64, bottom bool) node {
 		}
 		return node{kind: k, k: r.Range(0, 3), without: r.Chance(1, 3), labels: genLabels(r)}
 	case 3:
-		return node{kind: "ot", op: otOps[r.Intn(len(otOps))], rng: genRange(r, lod), sub: !bottom || r.Chance(1, 4)}
+		return node{kind: "ot", op: otOps[r.Intn(len(otOps))], rng: genRange(r, lod), sub: !matrixOK || r.Chance(1, 4)}
 	}
 	qn, qd := genQ(r)
-	return node{kind: "qot", qn: qn, qd: qd, rng: genRange(r, lod), sub: !bottom || r.Chance(1, 4)}
+	return node{kind: "qot", qn: qn, qd: qd, rng: genRange(r, lod), sub: !matrixOK || r.Chance(1, 4)}
 }
 
-// chain root first
-func genChain(r *verifx.Rng, lod int64) []node {
-	depth := r.Pick(0, 4, 5, 2)
+// chain (root first) of `depth` operators with parentheses and `+ 0` breakers sprinkled in; overSelector: the bottom
+// node may use the matrix-selector form
+func genChain(r *verifx.Rng, lod int64, depth int, overSelector bool) []node {
 	var up []node // bottom-up
 	for i := 0; i < depth; i++ {
-		bottom := len(up) == 0
-		n := genNode(r, lod, bottom)
+		n := genNode(r, lod, overSelector && len(up) == 0)
 		up = append(up, n)
 		if r.Chance(1, 6) {
 			up = append(up, node{kind: "paren"})
@@ -896,9 +677,8 @@ func genChain(r *verifx.Rng, lod int64) []node {
 			up = append(up, node{kind: "brk"})
 		}
 	}
-	if r.Chance(1, 8) {
+	if overSelector && r.Chance(1, 8) {
 		up = append([]node{{kind: "brk"}}, up...)
-		// a matrix selector needs the bare selector below it
 		if len(up) > 1 && (up[1].kind == "ot" || up[1].kind == "qot") {
 			up[1].sub = true
 		}
@@ -912,14 +692,127 @@ func genChain(r *verifx.Rng, lod int64) []node {
 
 var explicitWhats = []string{"avg", "sum", "count", "min", "max", "sumsec", "countsec"}
 
-type scenario struct {
-	st               *store
-	start, end, now  int64
-	step             int64
+func genSel(r *verifx.Rng, lod int64, depth int) *expr {
+	e := &expr{chain: genChain(r, lod, depth, true)}
+	if r.Chance(1, 5) {
+		e.what = explicitWhats[r.Intn(len(explicitWhats))]
+	}
+	return e
 }
 
-func genScenario(r *verifx.Rng, metric *format.MetricMetaValue) scenario {
-	st := &store{metric: metric}
+var binOps = []string{"add", "sub", "mul", "mul", "div", "eq", "gt", "lt", "ge", "le"}
+
+func genMatch(r *verifx.Rng) (string, []int) {
+	switch r.Pick(5, 3, 2) {
+	case 1:
+		ls := []int{r.Range(1, 3)}
+		if r.Bool() {
+			if b := r.Range(1, 3); b != ls[0] {
+				ls = append(ls, b)
+			}
+		}
+		return "on", ls
+	case 2:
+		ls := []int{r.Range(1, 3)}
+		if r.Chance(1, 3) {
+			if b := r.Range(1, 3); b != ls[0] {
+				ls = append(ls, b)
+			}
+		}
+		return "ign", ls
+	}
+	return "dflt", nil
+}
+
+func groupingNode(r *verifx.Rng, ls []int, without bool) node {
+	ops := []string{"sum", "sum", "max", "min", "avg", "count"}
+	return node{kind: "agg", op: ops[r.Intn(len(ops))], labels: ls, without: without}
+}
+
+// one operand of a binary operation
+func genOperand(r *verifx.Rng, lod int64, nest int) *expr {
+	switch r.Pick(3, 4, 2) {
+	case 0:
+		return &expr{} // the raw selector
+	case 1:
+		return genSel(r, lod, r.Range(1, 2))
+	}
+	if nest <= 0 {
+		return genSel(r, lod, 1)
+	}
+	return genBin(r, lod, nest-1)
+}
+
+func genBin(r *verifx.Rng, lod int64, nest int) *expr {
+	m, ls := genMatch(r)
+	b := &binop{op: binOps[r.Intn(len(binOps))], match: m, labels: ls}
+	if r.Chance(1, 2) {
+		// both sides aggregated to the same label set, the aggregated operands produced in different ways:
+		// agg by (L) (x op x) op agg by (L) (y), agg by (L) (agg without () (x)) op …
+		gl := [][]int{{1}, {2}, {1, 2}, {1, 3}, {3}}[r.Intn(5)]
+		wo := r.Chance(1, 4)
+		mk := func() *expr {
+			var inner *expr
+			switch r.Pick(3, 2, 2, 2) {
+			case 0:
+				inner = &expr{}
+			case 1:
+				inner = &expr{base: &binop{op: []string{"mul", "add", "sub", "gt"}[r.Intn(4)], match: "dflt", l: &expr{}, r: &expr{}}}
+			case 2:
+				inner = &expr{chain: []node{{kind: "agg", op: []string{"sum", "max", "min"}[r.Intn(3)], without: true}}}
+			default:
+				inner = genSel(r, lod, 1)
+				for i := range inner.chain {
+					if inner.chain[i].kind == "topk" || inner.chain[i].kind == "botk" {
+						inner.chain[i].k = 2
+					}
+				}
+			}
+			inner.chain = append([]node{groupingNode(r, gl, wo)}, inner.chain...)
+			return inner
+		}
+		b.l, b.r = mk(), mk()
+		if r.Chance(2, 3) {
+			b.match, b.labels = "dflt", nil
+		}
+	} else {
+		b.l, b.r = genOperand(r, lod, nest), genOperand(r, lod, nest)
+	}
+	e := &expr{base: b}
+	if r.Chance(1, 3) {
+		e.chain = genChain(r, lod, 1, false)
+	}
+	return e
+}
+
+func genExpr(r *verifx.Rng, lod int64) *expr {
+	if r.Chance(3, 10) {
+		return genBin(r, lod, 1)
+	}
+	return genSel(r, lod, r.Pick(0, 4, 5, 2))
+}
+
+type scenario struct {
+	st              *store
+	start, end, now int64
+	step            int64
+	kind            string
+}
+
+// LOD levels of the newest LOD table
+var lodLevels = []int64{1, 5, 15, 60, 300, 900, 3600}
+
+func gridOf(step int64) int64 {
+	g := int64(1)
+	for _, l := range lodLevels {
+		if l <= step {
+			g = l
+		}
+	}
+	return g
+}
+
+func genTags(r *verifx.Rng, st *store) {
 	n := r.Range(1, 4)
 	seen := map[[3]int64]bool{}
 	for len(st.tags) < n {
@@ -929,14 +822,16 @@ func genScenario(r *verifx.Rng, metric *format.MetricMetaValue) scenario {
 			st.tags = append(st.tags, t)
 		}
 	}
+}
+
+func genValue(r *verifx.Rng) int64 { return 5040 * int64(r.Range(-3, 20)) }
+
+// dense one-second events on a fine grid (steps 0, 1, 5, 10, 15)
+func genFine(r *verifx.Rng, metric *format.MetricMetaValue) scenario {
+	st := &store{metric: metric}
+	genTags(r, st)
 	step := []int64{1, 1, 1, 5, 5, 15, 0, 10}[r.Intn(8)]
-	lod := step
-	if lod == 0 {
-		lod = 1
-	}
-	if lod == 10 {
-		lod = 5
-	}
+	lod := gridOf(step)
 	points := int64(r.Range(5, 12))
 	base := int64(1_000_000 + 900*r.Range(0, 50))
 	start := base
@@ -944,7 +839,6 @@ func genScenario(r *verifx.Rng, metric *format.MetricMetaValue) scenario {
 		start += int64(r.Range(1, int(lod)))
 	}
 	end := start + points*lod
-	// events: seconds from well before the start (ranges look back) up to the end
 	from := base - 4*lod*3
 	density := []int{1, 2, 3, 4}[r.Intn(4)] // out of 4
 	gapLo := from + int64(r.Intn(int(end-from)))
@@ -955,12 +849,68 @@ func genScenario(r *verifx.Rng, metric *format.MetricMetaValue) scenario {
 				continue
 			}
 			if r.Intn(4) < density {
-				k := int64(r.Range(-3, 20))
-				st.events = append(st.events, event{series: s, sec: sec, val: 5040 * k})
+				st.events = append(st.events, event{series: s, sec: sec, val: genValue(r)})
 			}
 		}
 	}
-	return scenario{st: st, start: start, end: end, now: end + int64(r.Range(1, 30)), step: step}
+	return scenario{st: st, start: start, end: end, now: end + int64(r.Range(1, 30)), step: step, kind: "fine"}
+}
+
+// at most one event per series and grid bucket; requested steps that are not LOD levels are served on a finer grid
+func genCoarse(r *verifx.Rng, metric *format.MetricMetaValue) scenario {
+	st := &store{metric: metric}
+	genTags(r, st)
+	step := []int64{30, 120, 600, 7200, 30, 120, 20, 45, 60, 300, 10, 2}[r.Intn(12)]
+	g := gridOf(step)
+	points := int64(r.Range(5, 10))
+	base := (int64(2_000_000+r.Range(0, 500)*7200) / 7200) * 7200
+	start := base
+	if r.Chance(1, 4) {
+		start += int64(r.Range(1, int(g)))
+	}
+	end := start + points*step
+	density := []int{2, 3, 4}[r.Intn(3)]
+	for s := range st.tags {
+		for b := base/g - 8; b*g < end; b++ {
+			if r.Intn(4) < density {
+				st.events = append(st.events, event{series: s, sec: b*g + int64(r.Intn(int(g))), val: genValue(r)})
+			}
+		}
+	}
+	return scenario{st: st, start: start, end: end, now: end + int64(r.Range(1, 30)), step: step, kind: "coarse"}
+}
+
+// the query crosses the boundary (now - 52h + 2s) between the minute table and the second table: two LODs
+func genMultiLOD(r *verifx.Rng, metric *format.MetricMetaValue) scenario {
+	st := &store{metric: metric}
+	genTags(r, st)
+	step := []int64{1, 5, 15, 15, 30, 10}[r.Intn(6)]
+	g := gridOf(step)
+	edge := int64(3_000_000+r.Range(0, 1000)*900) / 900 * 900 // multiple of every level up to 15m
+	now := edge + 52*3600 - 2
+	start := edge - 60*int64(r.Range(2, 5))
+	fine := int64(r.Range(3, 8))
+	if g == 1 {
+		fine = int64(r.Range(5, 20))
+	}
+	end := edge + fine*g
+	if step > g {
+		end = edge + int64(r.Range(2, 5))*step
+	}
+	density := []int{2, 3, 4}[r.Intn(3)]
+	for s := range st.tags {
+		for b := start/60 - 6; b*60 < edge; b++ {
+			if r.Intn(4) < density {
+				st.events = append(st.events, event{series: s, sec: b*60 + int64(r.Intn(60)), val: genValue(r)})
+			}
+		}
+		for b := edge / g; b*g < end; b++ {
+			if r.Intn(4) < density {
+				st.events = append(st.events, event{series: s, sec: b*g + int64(r.Intn(int(g))), val: genValue(r)})
+			}
+		}
+	}
+	return scenario{st: st, start: start, end: end, now: now, step: step, kind: "multilod"}
 }
 
 func storeOp(st *store) string {
@@ -980,121 +930,11 @@ func storeOp(st *store) string {
 }
 
 func tsOp(ts tsInfo) string {
-	return fmt.Sprintf("ts step=%d lod=%d startx=%d vs=%d ve=%d times=%s", ts.step, ts.lod, ts.startX, ts.vs, ts.ve, verifx.List(ts.times))
+	return fmt.Sprintf("ts step=%d lod=%d startx=%d vs=%d ve=%d times=%s w=%s", ts.step, ts.lod, ts.startX, ts.vs, ts.ve,
+		verifx.List(ts.times), verifx.List(ts.widths))
 }
 
-func capToRef(c []capSeries) []rser {
-	out := make([]rser, len(c))
-	for i, s := range c {
-		vals := make([]*big.Rat, len(s.vals))
-		for j, v := range s.vals {
-			if !math.IsNaN(v) {
-				vals[j] = new(big.Rat).SetFloat64(v)
-			}
-		}
-		out[i] = rser{tags: s.tags, vals: vals}
-	}
-	return out
-}
-
-func refLines(ts tsInfo, ss []rser) []string {
-	var lines []string
-	for _, s := range ss {
-		if ts.vs != ts.ve && !hasPresentInView(ts, s) {
-			continue
-		}
-		vs := make([]string, 0, len(s.vals))
-		for _, v := range s.vals[ts.startX:] {
-			vs = append(vs, fmtRat(v))
-		}
-		lines = append(lines, tagKey(s.tags)+" "+strings.Join(vs, " "))
-	}
-	sort.Strings(lines)
-	return lines
-}
-
-func firstDiff(a, b []string) string {
-	for i := 0; i < len(a) || i < len(b); i++ {
-		var x, y string
-		if i < len(a) {
-			x = a[i]
-		}
-		if i < len(b) {
-			y = b[i]
-		}
-		if x != y {
-			return fmt.Sprintf("engine=[%s] definition=[%s]", x, y)
-		}
-	}
-	return ""
-}
-
-// reference result (definitions) for the engine-side nodes of chain above the storage answer captured in `real`
-func refFor(chain []node, real runResult, upto int) ([]string, flags) {
-	fl := flags{inexact: real.inex}
-	ss := capToRef(real.capt)
-	for i := len(chain) - 1 - (upto + 1); i >= 0; i-- {
-		ss = refApply(chain[i], real.ts, ss, &fl)
-	}
-	return refLines(real.ts, ss), fl
-}
-
-// the node to blame for a difference: the sub-expressions are run bottom-up on the real engine, the first one whose
-// result differs from its definition names the signature (falls back to the root)
-func blame(sc scenario, what string, chain []node, upto int) string {
-	for i := len(chain) - 1 - (upto + 1); i > 0; i-- {
-		sub := chain[i:]
-		expr, pre := chainStrings(what, sub)
-		real := run(sc.st, expr, sc.start, sc.end, sc.step, sc.now)
-		if real.err != nil || real.nq == 0 {
-			continue
-		}
-		u := reducedUpto(real.replaced, pre)
-		if u != upto {
-			continue
-		}
-		ref, _ := refFor(sub, real, u)
-		if firstDiff(real.lines, ref) != "" {
-			return sigOf(sub[0])
-		}
-	}
-	return sigOf(chain[0])
-}
-
-func sigOf(n node) string {
-	switch n.kind {
-	case "agg":
-		return "def-agg-" + n.op
-	case "q":
-		return "def-agg-quantile"
-	case "topk", "botk":
-		return "def-" + n.kind
-	case "ot":
-		return "def-" + n.op + "-over-time"
-	case "qot":
-		return "def-quantile-over-time"
-	}
-	return "def-" + n.kind
-}
-
-func defSigUnused(chain []node, upto int) string {
-	for i := len(chain) - 1 - (upto + 1); i >= 0; i-- {
-		n := chain[i]
-		switch n.kind {
-		case "agg":
-			return "def-agg-" + n.op
-		case "q":
-			return "def-agg-quantile"
-		case "topk", "botk":
-			return "def-" + n.kind
-		case "ot":
-			return "def-" + n.op + "-over-time"
-		case "qot":
-			return "def-quantile-over-time"
-		}
-	}
-	return "def-selector"
-}
+// ---------------------------------------------------------------- reduction oracle
 
 func withBrk(chain []node) []node {
 	c := append([]node(nil), chain...)
@@ -1119,83 +959,96 @@ func nonParen(chain []node) []node {
 	return c
 }
 
-// reduction oracle: which (rule shape, what) combinations are claimed to be result preserving, see checks/C27.py
-func reduceOracle(h *verifx.H, sc scenario, chain []node, real runResult, upto int, expr string) {
+// which (rule shape, what) combinations are claimed to be result preserving is described in checks/C27.py
+func reduceOracle(h *verifx.H, sc scenario, e *expr, real runResult, upto int, text string) {
+	chain := e.chain
 	np := nonParen(chain)
 	if len(np) == 0 {
 		return
 	}
 	lod := real.ts.lod
-	// shape of the reduced part (bottom-up)
 	bottom := np[len(np)-1]
 	var shape, what string
 	reducedNodes := 0
-	// count non-paren nodes among the replaced ones
 	for i, seen := len(chain)-1, 0; i >= 0 && seen <= upto; i, seen = i-1, seen+1 {
 		if chain[i].kind != "paren" {
 			reducedNodes++
 		}
 	}
+	rng := int64(0) // range of the pushed-down over-time function
 	switch {
 	case reducedNodes == 1 && bottom.kind == "agg":
 		shape, what = "agg", bottom.op
 	case reducedNodes == 1 && bottom.kind == "ot":
-		shape, what = "over-time", bottom.op
+		shape, what, rng = "over-time", bottom.op, bottom.rng
 	case reducedNodes == 2 && bottom.kind == "ot":
-		shape, what = "agg-of-over-time", bottom.op
+		shape, what, rng = "agg-of-over-time", bottom.op, bottom.rng
 		if np[len(np)-2].op != what {
 			return // mixed (sum∘count …): the rule blends the two `what`s by design, nothing exact to compare with
 		}
 	case reducedNodes == 2 && bottom.kind == "agg":
-		shape, what = "over-time-of-agg", bottom.op
+		shape, what, rng = "over-time-of-agg", bottom.op, np[len(np)-2].rng
 		if np[len(np)-2].op != what {
 			return
 		}
 	default:
 		return
 	}
+	uniform := true
+	for _, w := range real.ts.widths {
+		if w != lod {
+			uniform = false
+		}
+	}
+	sameGrid := false // comparison run on the same time scale (needs at most one event per series and point)
 	switch shape {
 	case "agg":
-		// per-second normalised what: equal to the PromQL operator on one-second data only
-		if lod != 1 || real.ts.step > 1 {
+		// per-second normalised what: equal to the PromQL operator on one-second buckets only
+		if !uniform || lod != 1 || real.ts.step > 1 {
 			return
 		}
+		sameGrid = true
 	case "over-time":
-		if bottom.rng != lod {
-			return
+		if rng < lod {
+			return // a range below the grid step is an estimate (value·range/step) by design
 		}
 	default:
 		// sum/min/max compose exactly; avg-of-avg and count-of-count are not the pooled value by definition
 		if what != "sum" && what != "min" && what != "max" {
 			return
 		}
-		for _, n := range np[len(np)-2:] {
-			if n.kind == "ot" && n.rng != lod {
-				return
-			}
+		if rng < lod {
+			return
 		}
 	}
-	if (shape != "agg" || what == "count") && reducedNodes != len(np) {
-		return // engine-side nodes above would run on another step in the comparison run
+	if shape != "agg" {
+		if reducedNodes != len(np) {
+			return // engine-side nodes above would run on another grid in the comparison run
+		}
+		if real.sparse {
+			sameGrid = true
+		} else if !uniform || sc.end-sc.start > 1500 {
+			return
+		}
+	} else if what == "count" && reducedNodes != len(np) {
+		return
 	}
 	h.Stat("reduce.checked."+shape, 1)
 	// the same expression with the selector wrapped in (m + 0): no rule matches, the engine operators do the work
-	alt := withBrk(chain)
-	altExpr, _ := chainStrings("", alt)
-	altStep := real.ts.step
-	if shape != "agg" {
+	alt := &expr{chain: withBrk(chain)}
+	altExpr := alt.render(nil)
+	altStep := sc.step
+	shift := int64(0)
+	if !sameGrid {
 		altStep = 1
+		shift = lod - 1 // bucket [T, T+lod) of the pushed-down run = window ending at second T+lod-1 of the one-second run
 	}
 	ref := run(sc.st, altExpr, sc.start, sc.end, altStep, sc.now)
-	if ref.err != nil || ref.nq != 1 {
+	if ref.err != nil || len(ref.caps) != 1 {
 		h.Note("reduce oracle: comparison run failed: %v", ref.err)
 		return
 	}
 	sig := fmt.Sprintf("reduce-%s-%s", shape, what)
-	shift := int64(0)
-	if shape != "agg" {
-		shift = lod - 1 // bucket [T, T+lod) of the reduced run = window ending at second T+lod-1 of the one-second run
-	}
 	refIdx := map[int64]int{}
 	for i, t := range ref.times {
 		refIdx[t] = i
@@ -1215,8 +1068,25 @@ func reduceOracle(h *verifx.H, sc scenario, chain []node, real runResult, upto i
 	for _, k := range ks {
 		a, b := real.series[k], ref.series[k]
 		for i, t := range real.times {
-			if t < sc.start { // before the requested interval the two runs fetch different amounts of history
+			if t < sc.start { // before the requested interval the two runs may fetch different amounts of history
 				continue
+			}
+			if rng != 0 {
+				// the window of `rng` ending with this point must lie in one LOD, whose step the range reaches
+				x := real.ts.startX + i
+				w := real.ts.widths[x]
+				if rng < w {
+					continue
+				}
+				okw := true
+				for y := x; y >= 0 && real.ts.times[x]-real.ts.times[y] < rng; y-- {
+					if real.ts.widths[y] != w {
+						okw = false
+					}
+				}
+				if !okw {
+					continue
+				}
 			}
 			j, ok := refIdx[t+shift]
 			if !ok {
@@ -1230,7 +1100,7 @@ func reduceOracle(h *verifx.H, sc scenario, chain []node, real runResult, upto i
 				y = b[j]
 			}
 			if what == "count" {
-				// count_over_time yields 0 where the engine sees no point; the storage has no row there
+				// count(_over_time) yields 0 where the engine sees no point; the storage has no row there
 				if math.IsNaN(x) {
 					x = 0
 				}
@@ -1239,66 +1109,71 @@ func reduceOracle(h *verifx.H, sc scenario, chain []node, real runResult, upto i
 				}
 			}
 			if fmtFloat(x) != fmtFloat(y) {
-				h.Viol(sig, "expr=%q step=%d start=%d end=%d series=%s t=%d pushed-down=%s engine-evaluated=%s (%q step=%d at t=%d) storage-query=[%s]",
-					expr, real.ts.step, sc.start, sc.end, k, t, fmtFloat(x), fmtFloat(y), altExpr, altStep, t+shift, real.query)
+				h.Viol(sig, "expr=%q step=%d start=%d end=%d now=%d grid=%v series=%s t=%d pushed-down=%s engine-evaluated=%s (%q step=%d at t=%d) storage-query=[%s]",
+					text, sc.step, sc.start, sc.end, sc.now, real.ts.widths, k, t, fmtFloat(x), fmtFloat(y), altExpr, altStep, t+shift, real.queries())
 				return
 			}
 		}
 	}
 }
 
+// ---------------------------------------------------------------- cases
+
 func evalCase(h *verifx.H, r *verifx.Rng, metric *format.MetricMetaValue) {
-	sc := genScenario(r, metric)
+	var sc scenario
+	switch r.Pick(5, 3, 2) {
+	case 0:
+		sc = genFine(r, metric)
+	case 1:
+		sc = genCoarse(r, metric)
+	default:
+		sc = genMultiLOD(r, metric)
+	}
 	h.Op("%s", storeOp(sc.st))
-	lod := sc.step
-	if lod == 0 {
-		lod = 1
-	}
-	if lod == 10 {
-		lod = 5
-	}
+	lod := gridOf(sc.step)
+	h.Stat("scenario."+sc.kind, 1)
 	h.Stat(fmt.Sprintf("step.%d", sc.step), 1)
 	nexpr := r.Range(1, 3)
-	for e := 0; e < nexpr; e++ {
-		var chain []node
-		var what, expr string
-		var pre []string
+	for x := 0; x < nexpr; x++ {
+		var e *expr
+		var text string
+		var leaves []leaf
 		var real runResult
-		var upto int
-		var fl flags
-		var refOut []string
+		var ref []rser
+		var rs *refState
 		okCase := false
 		for try := 0; try < 30; try++ {
-			chain = genChain(r, lod)
-			what = ""
-			if r.Chance(1, 5) {
-				what = explicitWhats[r.Intn(len(explicitWhats))]
-			}
-			expr, pre = chainStrings(what, chain)
-			real = run(sc.st, expr, sc.start, sc.end, sc.step, sc.now)
-			if real.err != nil {
-				h.Stat("skip.error", 1)
-				h.Note("engine error for %q: %v", expr, real.err)
+			e = genExpr(r, lod)
+			leaves = nil
+			text = e.render(&leaves)
+			real = run(sc.st, text, sc.start, sc.end, sc.step, sc.now)
+			if len(real.ts.times) == 0 {
+				h.Stat("skip.no-timescale", 1)
+				h.Note("no time scale for %q: %v", text, real.err)
 				continue
 			}
-			if real.nq == 0 { // topk(0, …) never reaches the storage
-				upto = -1
-				fl = flags{}
-				refOut = nil
+			if real.err != nil {
+				if !strings.Contains(real.err.Error(), "label set match multiple series") {
+					h.Stat("skip.error", 1)
+					h.Note("engine error for %q: %v", text, real.err)
+					continue
+				}
+				if try < 10 && r.Chance(4, 5) {
+					continue // keep only some of the many-to-one errors
+				}
 				okCase = true
 				break
 			}
-			upto = reducedUpto(real.replaced, pre)
-			if upto == -2 {
-				h.Stat("skip.unmatched-reduction", 1)
+			ref, rs = refSeries(e, leaves, real)
+			if rs.broken {
+				h.Stat("skip.captures-misaligned", 1)
 				continue
 			}
-			refOut, fl = refFor(chain, real, upto)
-			if fl.inexact {
+			if rs.fl.inexact {
 				h.Stat("skip.inexact", 1)
 				continue
 			}
-			if fl.tie {
+			if rs.fl.tie {
 				h.Stat("skip.tie", 1)
 				continue
 			}
@@ -1310,24 +1185,45 @@ func evalCase(h *verifx.H, r *verifx.Rng, metric *format.MetricMetaValue) {
 			continue
 		}
 		h.Op("%s", tsOp(real.ts))
-		h.Op("eval %s", chainTokens(what, chain))
+		h.Op("eval %s", e.tokens())
+		if real.err != nil {
+			h.Obs("err")
+			h.Stat("result.match-error", 1)
+			h.Note("expr %s | %v", text, real.err)
+			continue
+		}
 		h.Obs("n=%d", len(real.lines))
 		for _, l := range real.lines {
 			h.Obs("%s", l)
 		}
-		h.Note("expr %s | storage %s", expr, real.query)
+		h.Note("expr %s | storage %s", text, real.queries())
 		// statistics and the non-trivial rule
-		for _, n := range chain {
-			switch n.kind {
-			case "agg", "ot":
-				h.Stat("node."+n.kind+"."+n.op, 1)
-			default:
-				h.Stat("node."+n.kind, 1)
+		e.walk(func(x *expr) {
+			for _, n := range x.chain {
+				switch n.kind {
+				case "agg", "ot":
+					h.Stat("node."+n.kind+"."+n.op, 1)
+				default:
+					h.Stat("node."+n.kind, 1)
+				}
 			}
+			if x.base != nil {
+				h.Stat("node.bin."+x.base.op+"."+x.base.match, 1)
+			}
+		})
+		if len(real.ts.widths) > 0 && real.ts.widths[0] != real.ts.lod {
+			h.Stat("grid.multi-lod", 1)
 		}
-		if upto >= 0 {
+		if real.ts.step > real.ts.lod {
+			h.Stat("grid.finer-than-step", 1)
+		}
+		if rs != nil && rs.anyRed {
 			h.Stat("reduced", 1)
 			h.NonTrivial("reduced")
+		}
+		if e.base != nil && len(real.lines) > 0 {
+			h.Stat("binary-nonempty", 1)
+			h.NonTrivial("binary")
 		}
 		missing := false
 		for _, l := range real.lines {
@@ -1335,20 +1231,154 @@ func evalCase(h *verifx.H, r *verifx.Rng, metric *format.MetricMetaValue) {
 				missing = true
 			}
 		}
-		if missing && len(chain) > 0 {
+		if missing && (len(e.chain) > 0 || e.base != nil) {
 			h.Stat("with-missing-points", 1)
 			h.NonTrivial("missing")
 		}
-		// oracle 1: operators above the storage query compute their definitions
-		if real.nq != 0 {
-			if d := firstDiff(real.lines, refOut); d != "" {
-				h.Viol(blame(sc, what, chain, upto), "expr=%q step=%d start=%d end=%d now=%d %s storage-query=[%s]", expr, sc.step, sc.start, sc.end, sc.now, d, real.query)
+		// oracle 1: operators above the storage queries compute their definitions
+		if rs != nil && rs.err {
+			h.Viol("def-binary-match", "expr=%q step=%d start=%d end=%d now=%d engine returned a result, the definition finds a label set matching several series storage-query=[%s]",
+				text, sc.step, sc.start, sc.end, sc.now, real.queries())
+		} else if len(real.caps) != 0 {
+			if d := firstDiff(real.lines, refLines(ref)); d != "" {
+				sig := blame(sc, e, func(sub *expr) bool {
+					var lv []leaf
+					t := sub.render(&lv)
+					rr := run(sc.st, t, sc.start, sc.end, sc.step, sc.now)
+					if rr.err != nil || len(rr.caps) == 0 {
+						return false
+					}
+					rf, st := refSeries(sub, lv, rr)
+					return !st.broken && !st.err && firstDiff(rr.lines, refLines(rf)) != ""
+				})
+				h.Viol(sig, "expr=%q step=%d start=%d end=%d now=%d %s storage-query=[%s]", text, sc.step, sc.start, sc.end, sc.now, d, real.queries())
 			}
 		}
 		// oracle 2: a pushed-down expression equals its engine-side evaluation
-		if upto >= 0 && what == "" {
-			reduceOracle(h, sc, chain, real, upto, expr)
+		if e.base == nil && e.what == "" && rs != nil && rs.anyRed {
+			reduceOracle(h, sc, e, real, reducedUpto(real.replaced, leaves[0].pre), text)
 		}
+	}
+}
+
+// numeric stream: values outside float64's exact domain.  Nothing is sent to the model; the engine's result must be within
+// a relative tolerance of the exact (big.Rat) definition.
+var worstNumeric float64
+
+func numericCase(h *verifx.H, r *verifx.Rng, metric *format.MetricMetaValue) {
+	st := &store{metric: metric}
+	genTags(r, st)
+	for len(st.tags) < 3 {
+		st.tags = nil
+		genTags(r, st)
+	}
+	step := []int64{1, 5, 15}[r.Intn(3)]
+	points := int64(r.Range(4, 8))
+	start := int64(1_000_000 + 900*r.Range(0, 50))
+	end := start + points*step
+	// magnitude / spread <= 1e9: the two-pass variance keeps ~1e-14 relative accuracy there, a one-pass E[x²]-E[x]² none
+	mags := []int64{1_000_000, 1_000_000_000, 30_000_000_000, 1_000_000_000_000}
+	mag := mags[r.Intn(len(mags))]
+	spread := []int64{1, 3, 10, 1000, 100_000}[r.Intn(5)]
+	for mag/spread > 1_000_000_000 {
+		spread *= 10
+	}
+	mixed := r.Chance(1, 4)
+	maxAbs := float64(mag + spread)
+	for s := range st.tags {
+		base := mag
+		if mixed && s%2 == 1 {
+			base = int64(r.Range(1, 1000))
+		}
+		for sec := start - 3*step*3; sec < end; sec++ {
+			if r.Chance(3, 4) {
+				st.events = append(st.events, event{series: s, sec: sec, val: base + int64(r.Range(-int(spread), int(spread)))})
+			}
+		}
+	}
+	sc := scenario{st: st, start: start, end: end, now: end + 5, step: step, kind: "numeric"}
+	aggN := []string{"stdvar", "stddev", "avg", "sum", "stdvar", "stddev"}
+	otN := []string{"stdvar", "stddev", "avg", "sum"}
+	var up []node
+	up = append(up, node{kind: "brk"})
+	depth := r.Range(1, 2)
+	varUsed := false // one variance-like operator per expression: the tolerance is derived for degree <= 2 quantities
+	pick := func(ops []string) string {
+		for {
+			op := ops[r.Intn(len(ops))]
+			if op == "stdvar" || op == "stddev" {
+				if varUsed {
+					continue
+				}
+				varUsed = true
+			}
+			return op
+		}
+	}
+	for i := 0; i < depth; i++ {
+		if r.Chance(3, 5) {
+			if r.Chance(1, 6) {
+				qn, qd := genQ(r)
+				up = append(up, node{kind: "q", qn: qn, qd: qd, without: r.Chance(1, 3), labels: genLabels(r)})
+			} else {
+				up = append(up, node{kind: "agg", op: pick(aggN), without: r.Chance(1, 3), labels: genLabels(r)})
+			}
+		} else {
+			up = append(up, node{kind: "ot", op: pick(otN), rng: step * int64(r.Range(2, 4)), sub: true})
+		}
+	}
+	e := &expr{}
+	for i := len(up) - 1; i >= 0; i-- {
+		e.chain = append(e.chain, up[i])
+	}
+	degree2 := false // variance-like quantities scale with the square of the inputs
+	for _, n := range e.chain {
+		if n.op == "stdvar" && (n.kind == "agg" || n.kind == "ot") {
+			degree2 = true
+		}
+	}
+	tol := tolerance{rel: 1e-6, floor: 1e-9 * maxAbs}
+	if degree2 {
+		tol.floor = 1e-18 * maxAbs * maxAbs
+		if tol.floor < 1e-9 {
+			tol.floor = 1e-9
+		}
+	}
+	var leaves []leaf
+	text := e.render(&leaves)
+	real := run(st, text, sc.start, sc.end, sc.step, sc.now)
+	h.Stat("numeric.cases", 1)
+	if real.err != nil {
+		h.Stat("numeric.error", 1)
+		h.Note("numeric: engine error for %q: %v", text, real.err)
+		return
+	}
+	ref, rs := refSeries(e, leaves, real)
+	if rs.broken || rs.err {
+		h.Stat("numeric.skipped", 1)
+		return
+	}
+	cmp := func(sub *expr) (string, float64) {
+		var lv []leaf
+		t := sub.render(&lv)
+		rr := run(st, t, sc.start, sc.end, sc.step, sc.now)
+		if rr.err != nil {
+			return "", 0
+		}
+		rf, s2 := refSeries(sub, lv, rr)
+		if s2.broken || s2.err {
+			return "", 0
+		}
+		return numericDiff(rr, rf, tol)
+	}
+	d, worst := numericDiff(real, ref, tol)
+	if worst > worstNumeric && !math.IsInf(worst, 0) {
+		worstNumeric = worst
+	}
+	h.NonTrivial("numeric")
+	if d != "" {
+		sig := blame(sc, e, func(sub *expr) bool { x, _ := cmp(sub); return x != "" })
+		h.Viol(sig+"-numeric", "expr=%q step=%d start=%d end=%d now=%d magnitude=%d spread=%d mixed=%v %s", text, sc.step, sc.start, sc.end, sc.now, mag, spread, mixed, d)
 	}
 }
 
@@ -1420,11 +1450,17 @@ func main() {
 		Tags: []format.MetricMetaTag{{}, {Name: "a"}, {Name: "b"}, {Name: "c"}}}
 	_ = metric.RestoreCachedInfo()
 	h.Cases(func(i int, r *verifx.Rng) {
-		if i%5 == 4 {
+		switch {
+		case i%8 == 7:
 			winCase(h, r)
-		} else {
+		case i%4 == 2:
+			numericCase(h, r, metric)
+		default:
 			evalCase(h, r, metric)
 		}
 	})
+	if h.Mode == "numeric-worst" {
+		h.Note("worst numeric error / allowed = %.3g", worstNumeric)
+	}
 	h.Done()
 }
